@@ -12,6 +12,7 @@ import (
 
 	"github.com/jcmturner/gokrb5/v8/config"
 
+	_ "verif/props/pcommon" // non-UTC local time zone for the process
 	"verif/ref/conf"
 	"verif/vh"
 )
